@@ -366,6 +366,13 @@ class Engine:
         # final exits: recompute false-exit from the stable head
         if is_for:
             exits_false = head
+            if getattr(c, 'for_at_least_once', False):
+                # clients that model counting loops over a positive count: the zero-iteration path is dropped
+                ex.breaks, ex.continues = [], []
+                body_in = c.on_bind(s.target, s.iter, head, 'for')
+                out = self.block(s.body, body_in, ex)
+                exits_false = self.jmany([out] + ex.continues)
+                breaks_all = list(ex.breaks)
         else:
             ex.breaks, ex.continues = [], []
             _t, exits_false = self.cond(s.test, head)
